@@ -117,9 +117,139 @@ def run(ctx):
             len(entries), len(entries) - len(PROTOCOL_PARSERS)), "entry-set", nontrivial=False)
         run_inventory(c, "A5", entries, "field arithmetic and hash permutation bodies excluded (C10/C16 value-level); user Air methods opaque")
     ctx.guard("A5", go)
+    ctx.rule("TERM", "loops with an input-dependent trip count contain a fallible read whose error leaves the function, or have a count bounded by a type width <= 2^16", 3)
+    ctx.guard("TERM", r_termination)
     ctx.assume("user Air implementations (Air::new, evaluate_transition, get_assertions, ...) do not panic")
     ctx.assume("field arithmetic and hash permutations do not panic on representable inputs (representation invariant, C10/C16)")
     ctx.assume("sites whose operands are not data-dependent on the entry points' inputs behave as on honest runs")
+
+
+def r_termination(ctx, cfg="default"):
+    """loops whose trip count is a decoded / caller-supplied integer must contain a fallible step whose
+    failure leaves the function (so the loop stops at end of input), or have a count bounded by a
+    small type width."""
+    from .c03 import for_loops
+    from .. import intervals
+    from ..patterns import check_result_guard
+    p = ctx.prog(cfg)
+    entries = entry_points(p)
+    stop = make_stop(p)
+    reach = p.reachable_from(entries, stop=stop)
+    keys = [k for k in reach if not stop(k)]
+    an = intervals.Analysis(p)
+    an.compute_param_env(entries, set(keys))
+    tn = panics.taint(p, entries, set(keys))
+    n = 0
+    for k in sorted(keys):
+        f = p.funcs[k]
+        for L in for_loops(f):
+            rng = None
+            sl = f.backward_slice([L["iter_local"]], at=(L["header"], 0))
+            for x in sl["locals"]:
+                for d in f.defs(x):
+                    if d["kind"] == "assign" and d["rv"][0] == "agg" and d["rv"][1].get("adt", "").startswith("core::ops::range::Range") and len(d["rv"][2]) == 2:
+                        rng = d
+            if rng is None:
+                continue
+            end = rng["rv"][2][1]
+            el = ir.op_local(end)
+            if el is None or el not in tn.get(k, set()):
+                continue
+            n += 1
+            iv = an.eval_op(f, end, (rng["bb"], rng["si"]))
+            bounded = iv is not None and iv[1] <= 1 << 16
+            fallible = False
+            for b in sorted(L["body"]):
+                t = f.term(b)
+                if t["k"] == "call" and t.get("dest") and f.local_ty(t["dest"][0]).startswith("core::result::Result"):
+                    for c in f.result_checks(b):
+                        if c["fail_edges"] and all(not f.can_reach(tg, [L["header"]]) for _, tg in c["fail_edges"] if f.blocks[tg]["t"]["k"] != "unreachable"):
+                            fallible = True
+            names = panics._names_of(f, [end])
+            esl = f.slice_of_operand(end, at=(rng["bb"], rng["si"]))
+            enames = {(callee_of(f.term(b)) or {}).get("name") for b in esl["calls"]}
+            held = bool(enames & {"len", "num_rows", "num_columns", "num_fri_layers", "depth"}) or any(
+                d["kind"] == "assign" and d["rv"][0] == "un" and d["rv"][1] == "PtrMetadata" for l in esl["locals"] for d in f.defs(l))
+            why = ("count bounded by %s" % panics._fmt(iv) if bounded else
+                   "every iteration performs a fallible read whose error leaves the function (stops at end of input)" if fallible else
+                   "count is the size of a collection already held in memory (or the logarithmic layer count)")
+            ctx.ob("TERM", "loop-bound:%s" % names, bounded or fallible or held,
+                   "loop over 0..%s: %s" % (names, why) if bounded or fallible or held else
+                   "loop count %s comes from the input, is not bounded (%s), is not the size of held data and the body has no fallible step" % (names, panics._fmt(iv)),
+                   f, f.term(L["header"])["sp"]["at"], cfg=cfg)
+    # while-loops: a simple variant must make progress on every iteration
+    from .. import codec
+    m = 0
+    for k in sorted(keys):
+        f = p.funcs[k]
+        fls = for_loops(f)
+        skip = {L["header"] for L in fls} | {L["switch"] for L in fls}
+        for src, h in sorted(codec._back_edges(f)):
+            if h in skip or f.is_cleanup(h):
+                continue
+            m += 1
+            ok, how = _variant_progress(f, h, an)
+            ctx.ob("TERM", "while-variant", ok, how, f, f.term(h)["sp"]["at"], cfg=cfg)
+    ctx.note("TERM: %d input-dependent for-loops and %d while-loops examined" % (n, m))
+
+
+def _variant_progress(f, h, an):
+    from ..patterns import cmp_sites
+    body = {h}
+    from .. import codec
+    for src, hh in codec._back_edges(f):
+        if hh != h:
+            continue
+        stack = [src]
+        while stack:
+            x = stack.pop()
+            if x in body:
+                continue
+            body.add(x)
+            for pb, _ in f.pred(x):
+                stack.append(pb)
+    # exit-controlling comparisons inside the loop
+    for s in cmp_sites(f):
+        if s["bb"] not in body:
+            continue
+        for c in f.bool_checks_of_local(s["local"]):
+            leaves_t = any(tg not in body for _, tg in c["true_edges"])
+            leaves_f = any(tg not in body for _, tg in c["false_edges"])
+            if leaves_t == leaves_f:
+                continue
+            # the loop continues while `a REL b` (REL = op if the false edge leaves)
+            from ..intervals import CMP_NEG
+            rel = s["op"] if leaves_f else CMP_NEG[s["op"]]
+            for var_op, other, grows_ok in ((s["a"], s["b"], rel in ("Lt", "Le", "Ne")), (s["b"], s["a"], rel in ("Gt", "Ge", "Ne"))):
+                vl = ir.op_local(var_op)
+                if vl is None:
+                    continue
+                carried = [x for x in f.copy_chain(vl) if len(f.defs(x)) > 1 or (1 <= x <= f.argc and f.defs(x))]
+                for v in carried:
+                    for d in f.defs(v):
+                        if d["bb"] not in body or d["kind"] != "assign":
+                            continue
+                        rv = d["rv"]
+                        src = None
+                        if rv[0] == "bin":
+                            src = rv
+                        elif rv[0] == "use" and ir.op_local(rv[1]) is not None:
+                            for x in f.copy_chain(ir.op_local(rv[1])):
+                                for dd in f.defs(x):
+                                    if dd["kind"] == "assign" and dd["rv"][0] == "bin":
+                                        src = dd["rv"]
+                        if not src:
+                            continue
+                        op = src[1].replace("WithOverflow", "")
+                        step = an.eval_op(f, src[3], (d["bb"], d["si"]))
+                        inc = op == "Add" and step and step[0] >= 1
+                        dec = (op in ("Sub", "Shr") and step and step[0] >= 1) or (op == "Div" and step and step[0] >= 2)
+                        outside = [b for b in range(len(f.blocks)) if b not in body]
+                        on_every = all(not f.can_reach(tg, [h], cut_blocks=[d["bb"]] + outside) for tg, _ in f.succ(h) if tg in body) or d["bb"] == h
+                        if on_every and ((inc and grows_ok) or (dec and not grows_ok) or (dec and rel in ("Gt", "Ge"))):
+                            return True, "loop continues while %s %s ..; `%s` moves by %s (step %s) on every iteration" % (
+                                f.local_name(v) or "_%d" % v, rel, f.local_name(v) or "_%d" % v, op, panics._fmt(step))
+    return False, "no loop-carried variable with a strictly monotone update on every iteration was found for this loop"
 
 
 def thorough(ctx):
